@@ -90,6 +90,11 @@ pub(crate) fn world(rwnd: u32, thr: u32, bind: bool, dgram_cap: usize) -> World 
     World { task, tx_msg_rx, dropped_rx, con_rx, dgram_rx, bnd_rx }
 }
 
+/// `Task::new_stream_shared` for harness modules outside `task` (the method is private to it)
+pub(crate) fn mk_stream(w: &World, id: u32, credit: u32) -> (MuxStream, EstablishedStreamData) {
+    w.task.new_stream_shared(id, credit, Bytes::new(), 0)
+}
+
 pub(crate) fn cx() -> Context<'static> {
     Context::from_waker(Waker::noop())
 }
